@@ -10,7 +10,7 @@ LEVEL = "exploration"
 NEEDS = ("rust",)
 EXHAUSTIVE = {"quick": False, "thorough": False}
 REQUIRED_MONITORS = ["wake_time_exact", "partition_invariance", "events_exactly_once_in_order", "budget_respected",
-                     "cpu_async_vs_sync"]
+                     "cpu_async_vs_sync", "disturbed_runs"]
 RULE = ("scripted cooperative tasks (start, then steps of `sleep d` with d in a palette containing 0, or a bare "
         "Pending without a wake request, each resumption optionally emitting one uniquely numbered event) are spawned on "
         "the REAL AsyncDriver and driven by run_for under several partitions of the run into budgets (one huge budget, "
@@ -49,7 +49,8 @@ def build_case(cid, variants, clock0=0, budgets=None):
     tasks = []
     for tid, (se, steps) in enumerate(variants):
         tasks.append({"start_emit": (tid * 16) if se else None,
-                      "steps": [[k, d, (tid * 16 + i + 1) if em else None] for i, ((k, d), em) in enumerate(steps)]})
+                      "steps": [[kd[0], kd[1], (tid * 16 + i + 1) if em else None] + list(kd[2:3])
+                                for i, (kd, em) in enumerate(steps)]})
     return {"id": cid, "clock0": clock0, "tasks": tasks, "budgets": budgets or [BIG], "max_calls": 200000}
 
 
@@ -59,10 +60,16 @@ def expected_cycles(case):
     for t in case["tasks"]:
         c = case["clock0"]
         seq = [c]
-        for k, d, _e in t["steps"]:
+        for st in t["steps"]:
+            k, d = st[0], st[1]
             if k == "park":
                 break        # sleep_cycles(u64::MAX - d): the task must never be seen again (nor anything after it)
-            c = c + (1 if k == "yield" else d)
+            if k == "nap2":
+                # `let later = sleep_cycles(d2); sleep_cycles(d).await; later.await;` - a sleep counts from the moment the
+                # task starts waiting on it (its first poll), not from the moment the future object was made
+                c = c + d + st[3]
+            else:
+                c = c + (1 if k == "yield" else d)
             seq.append(c)
         out.append(seq)
     return out
@@ -77,7 +84,13 @@ def judge(res: Result, case, outs, partitions):
     base_events = None
     shared = False
     for part, o in zip(partitions, outs):
+        disturb = 0
+        if isinstance(part, dict):
+            disturb, part = part["disturb"], part["budgets"]
         pc = dict(slim, budgets=part[:12])
+        if disturb:
+            pc["disturb"] = disturb      # other users of the thread (second driver / block_on) between the calls
+            res.monitor("disturbed_runs")
         if o.get("panic"):
             res.violation({"clause": "driver_panics"}, pc, o["panic"][:200])
             return
@@ -198,9 +211,17 @@ def run_cases(res: Result, cases, partitions_for):
     payload = []
     index = []
     for ci, case in enumerate(cases):
-        parts = partitions_for(case)
+        parts = list(partitions_for(case))
+        # the same task set with OTHER users of the thread between the calls: a second live driver (created after or before
+        # this one) and host code blocking on a future; nothing of that may change what this driver's tasks observe
+        k = len(index)
+        parts += [{"budgets": parts[k % len(parts)], "disturb": (1, 2, 5, 3, 7)[k % 5]},
+                  {"budgets": parts[0], "disturb": (5, 1, 3, 2, 6)[k % 5]}]
         for pi, p in enumerate(parts):
-            payload.append(dict(case, id=len(payload), budgets=p))
+            if isinstance(p, dict):
+                payload.append(dict(case, id=len(payload), budgets=p["budgets"], disturb=p["disturb"]))
+            else:
+                payload.append(dict(case, id=len(payload), budgets=p))
         index.append(parts)
     outs = rust.run("sched", payload, timeout=1800)
     k = 0
@@ -209,7 +230,8 @@ def run_cases(res: Result, cases, partitions_for):
         judge(res, case, outs[k:k + len(parts)], parts)
         k += len(parts)
     if cases and len(res.samples) < 2:
-        res.sample({"tasks": cases[len(cases) // 2]["tasks"], "partitions": [p[:6] for p in index[len(cases) // 2]]})
+        res.sample({"tasks": cases[len(cases) // 2]["tasks"],
+                    "partitions": [(p if isinstance(p, list) else p["budgets"])[:6] for p in index[len(cases) // 2]]})
 
 
 # ------------------------------------------------------------------------------------------------------------------
@@ -388,6 +410,10 @@ def run_shard(spec) -> Result:
             vs = []
             for _t in range(nt):
                 steps = tuple((r.choice(pal if r.random() < 0.3 else FULL), r.random() < 0.4) for _s in range(r.randrange(0, 7)))
+                if r.random() < 0.3 and steps:
+                    # a sleep future made before another sleep is awaited, and awaited afterwards
+                    j = r.randrange(len(steps))
+                    steps = steps[:j] + ((("nap2", r.choice((0, 1, 2, 3, 7)), r.choice((0, 1, 2, 5))), steps[j][1]),) + steps[j + 1:]
                 if r.random() < 0.15:
                     # "park forever": a sleep whose deadline does not fit in 64 bits, issued wherever the task happens to be
                     steps = steps + ((("park", r.choice((0, 1, 2, 7))), False), (("sleep", 1), True))
